@@ -86,7 +86,7 @@ async fn run_faulted<const N: usize>(cfg: HCfg, beh: BehaviourJ, dir: std::path:
     d.snapshots_on = true;
     rec.set_fault(None);
     d.open(false).await?;
-    let mut lines = vec![json!({"ev": "reset"})];
+    let mut lines = vec![json!({"ev": "reset", "fault": format!("{}:{}:{}:{}", plan.op, plan.kind, plan.how, plan.nth)})];
     rec.set_fault(Some(plan.clone()));
     let mut vid = 0u64;
     let mut hit_any = false;
